@@ -18,6 +18,7 @@ import (
 	"os"
 	"os/exec"
 	"regexp"
+	"strings"
 	"sync"
 
 	"github.com/smart-core-os/sc-golang/internal/verif/vk"
@@ -56,6 +57,11 @@ func run(r *vk.Run) {
 		"verdict for an empty group under Any/One/Fast/Race is not fixed by the statement (only that it must not panic): both are accepted and counted",
 		"Unspecified / out-of-range strategy: must satisfy the contract of at least one strategy",
 		"hang and leak are decided from goroutine state at a quiescent point, never from elapsed time")
+
+	// group Pull with members that deliver values (in this process, before the child pool exists)
+	if r.Only == "" || strings.Contains(r.Only, "pull-with-values") {
+		pullWithValues(r)
+	}
 
 	p := &pool{r: r}
 	defer p.stop()
